@@ -534,8 +534,13 @@ func (x *castX) dispatchTo() ([]string, string) {
 			if !ok || fd.Name.Name != "To" || fd.Recv != nil {
 				continue
 			}
-			ts, ok := fd.Body.List[0].(*ast.TypeSwitchStmt)
-			if !ok {
+			var ts *ast.TypeSwitchStmt
+			if len(fd.Body.List) == 1 {
+				ts, _ = fd.Body.List[0].(*ast.TypeSwitchStmt)
+			}
+			if ts == nil {
+				// anything but a single type switch is not a dispatch table: never guessed
+				dflt = "(.unknown " + lstr(x.p.stmtsText(fd.Body.List)) + ")"
 				continue
 			}
 			for _, c := range ts.Body.List {
